@@ -58,9 +58,11 @@ class MDriver(object):
         return [c for c in self.open_connectors() if c.state == 'connected']
 
     def enabled(self):
-        if not self.booted:
-            return [['boot']]
         ev = []
+        if not self.booted:
+            # the agent's first automatic start runs a start-up delay after the REST server is up: operator
+            # commands (and whatever they set in motion) may come first
+            ev.append(['boot'])
         r = self.sim.reactor
         for i, c in enumerate(r.attempts()[:3]):
             ev += [['ok', i], ['refused', i]]
@@ -251,7 +253,7 @@ def bfs(spec, col):
 
 
 def prefixes(cfg, n):
-    level = [[['boot']]]
+    level = [[['boot']], [['start'], ['boot']], [['stop'], ['boot']], [['start'], ['ok', 0], ['boot']]]
     for _ in range(n):
         nxt = []
         for p in level:
@@ -290,6 +292,8 @@ def pick(enabled, choice):
     weighted = []
     for ev in enabled:
         w = 3 if ev[0] in ('tick', 'io') else (2 if ev[0] in ('ok', 'start', 'stop') else 1)
+        if ev[0] == 'boot':
+            w = 8
         weighted += [ev] * w
     return weighted[choice % len(weighted)]
 
@@ -301,7 +305,8 @@ def run_shard(spec, seed, col, tier):
 
     def body(case):
         d = MDriver(case['cfg'])
-        d.apply(['boot'])
+        if not case.get('late_boot'):
+            d.apply(['boot'])
         for ch in case['choices']:
             if d.failures:
                 break
@@ -315,6 +320,7 @@ def run_shard(spec, seed, col, tier):
     strat = st.fixed_dictionaries({
         'cfg': st.sampled_from([{'connect_retry': c, 'hold': h, 'idle_hold': i}
                                 for c in (5, 29, 30, 31, 60) for h, i in ((180, 30), (9, 5))]),
+        'late_boot': st.sampled_from([False, False, False, True]),
         'choices': st.lists(st.integers(0, 999), min_size=spec['steps'] // 2, max_size=spec['steps'])})
     hyp_run(col, strat, body, seed, spec['examples'])
 
